@@ -36,6 +36,7 @@ pub fn vamm_cfg(rng: &mut Rng) -> DeployCfg {
             funding_period: 3600,
             decimals: Some(dec),
             live: true,
+            unwired: false,
         }],
         initial_ratio: 50_000,
         maint_ratio: 50_000,
